@@ -395,12 +395,18 @@ func (u *Unit) validFacts(t types.Type, slots []*Term, objBound *Term) []*Term {
 			}
 		case *types.Pointer:
 			mark(slots[i])
+			if !slots[i].hasBV && !u.W.inSomeGlobal(ut.Elem()) {
+				tb.MarkNoGlob(slots[i])
+			}
 			out = append(out, tb.Ult(slots[i], objBound), tb.Ult(slots[i+1], lim),
 				tb.Implies(tb.Eq(slots[i], tb.BV(32, 0)), tb.Eq(slots[i+1], tb.BV(64, 0)))) // nil is (0,0)
 			out = append(out, u.registerPtr(ut.Elem(), slots[i], slots[i+1])...)
 			i += 2
 		case *types.Slice:
 			mark(slots[i])
+			if !slots[i].hasBV && !u.W.inSomeGlobal(ut.Elem()) {
+				tb.MarkNoGlob(slots[i])
+			}
 			if !slots[i+3].hasBV && !slots[i+3].IsConst() {
 				u.sliceCaps = append(u.sliceCaps, slots[i+3])
 			}
